@@ -97,6 +97,20 @@ func c09Exec(o c09Op) (dig string) {
 		return sha(strings.Join(listStrings(l), ","))
 	case "hol":
 		return sha(strings.Join(listStrings(HolidayUtil.GetHolidaysByYear(a[0])), ",") + fmt.Sprint(HolidayUtil.GetHolidayByYmd(a[0], 10, 1)))
+	case "holbad":
+		return sha(fmt.Sprint(HolidayUtil.GetHoliday(o.S[0]), listStrings(HolidayUtil.GetHolidays(o.S[0]))))
+	case "fixrt":
+		// a fix-up that adds a far-future record and a second one that removes it again: the table ends as it began
+		// (single-goroutine histories only: it edits package state for a moment)
+		before := HolidayUtil.VerifDataInUse()
+		day := fmt.Sprintf("%04d%02d%02d", a[0], a[1], a[2])
+		HolidayUtil.Fix(nil, day+"81"+day)
+		mid := fmt.Sprint(HolidayUtil.GetHoliday(day))
+		HolidayUtil.Fix(nil, day+"~000000000")
+		if after := HolidayUtil.VerifDataInUse(); after != before {
+			return "LEAK: adding and removing " + day + " through Fix left the table changed"
+		}
+		return sha(mid)
 	case "hol2":
 		s := calendar.NewSolarFromYmd(a[0], a[1], a[2])
 		return sha(fmt.Sprint(HolidayUtil.GetHolidayByYmd(a[0], a[1], a[2]), listStrings(HolidayUtil.GetHolidaysByYm(a[0], a[1])), len(listStrings(HolidayUtil.GetHolidaysByYear(a[0]))),
@@ -150,8 +164,40 @@ func c09Exec(o c09Op) (dig string) {
 				ls.Remove(ls.Front())
 			}
 		}
+		// the term table of this Lunar and the months-of-the-year list are the caller's to edit as well: another object of
+		// the same date (and the year object handed out next) must not notice
+		yearBefore := fmt.Sprint(tableMonths(calendar.NewLunarYear(l.GetYear()), true), calendar.NewLunarYear(l.GetYear()).GetLeapMonth(), calendar.NewLunarYear(l.GetYear()).GetDayCount())
+		termsBefore := c09Terms(calendar.NewSolar(a[0], a[1], a[2], a[3], a[4], a[5]).GetLunar())
+		tb := l.GetJieQiTable()
+		for k, v := range tb {
+			if v != nil && (len(k)+a[2])%3 == 0 {
+				tb[k] = v.NextHour(-8)
+			}
+		}
+		delete(tb, "清明")
+		miy := calendar.NewLunarYear(l.GetYear()).GetMonthsInYear()
+		if miy.Len() > 2 {
+			miy.Remove(miy.Front())
+			miy.PushBack(miy.Front().Value)
+		}
+		// the chart's ten-god lists likewise
+		chartBefore := digest1(calendar.NewSolar(a[0], a[1], a[2], a[3], a[4], a[5]).GetLunar().GetEightChar())
+		ec := l.GetEightChar()
+		for _, ls := range []*list.List{ec.GetYearShiShenZhi(), ec.GetMonthShiShenZhi(), ec.GetDayShiShenZhi(), ec.GetTimeShiShenZhi()} {
+			ls.PushBack("(caller's note)")
+			ls.Remove(ls.Front())
+		}
+		if chartAfter := digest1(calendar.NewSolar(a[0], a[1], a[2], a[3], a[4], a[5]).GetLunar().GetEightChar()); chartAfter != chartBefore {
+			return "LEAK: after a caller edited the ten-god lists of one chart, a fresh chart of the same moment differs: " + diffDigests(chartBefore, chartAfter)
+		}
 		if after := mk(); after != before {
 			return "LEAK: after a caller edited the lists it was handed for this date, a fresh object of the same date reports " + after + ", before " + before
+		}
+		if termsAfter := c09Terms(calendar.NewSolar(a[0], a[1], a[2], a[3], a[4], a[5]).GetLunar()); termsAfter != termsBefore {
+			return "LEAK: after a caller edited the term table it was handed, a fresh Lunar of the same date reports other terms: " + diffDigests(termsBefore, termsAfter)
+		}
+		if yearAfter := fmt.Sprint(tableMonths(calendar.NewLunarYear(l.GetYear()), true), calendar.NewLunarYear(l.GetYear()).GetLeapMonth(), calendar.NewLunarYear(l.GetYear()).GetDayCount()); yearAfter != yearBefore {
+			return "LEAK: after a caller edited the months-of-the-year list it was handed, the year reports " + yearAfter + ", before " + yearBefore
 		}
 		return "no-leak"
 	case "setters":
@@ -225,6 +271,21 @@ func c09Exec(o c09Op) (dig string) {
 		return mapDigest(c09ObjExec(a, c09Salt))
 	}
 	return "unknown-op"
+}
+
+// c09Terms renders what a Lunar reports about solar terms (table, neighbours, day classes that hang on the day's term).
+func c09Terms(l *calendar.Lunar) string {
+	var parts []string
+	tb := l.GetJieQiTable()
+	for _, k := range termKeys31 {
+		if s := tb[k]; s != nil {
+			parts = append(parts, k+"="+s.ToYmdHms())
+		} else {
+			parts = append(parts, k+"=nil")
+		}
+	}
+	parts = append(parts, "jieqi="+l.GetJieQi(), fmt.Sprint("prev=", l.GetPrevJieQi(), " next=", l.GetNextJieQi()), fmt.Sprint("bajie=", l.GetTao().IsDayBaJie()), "hou="+l.GetHou())
+	return strings.Join(parts, ";")
 }
 
 // c09Salt selects the order in which an "obj" descriptor issues its calls on one object
@@ -542,6 +603,8 @@ func c09Ops(seed int64, n int) (ops []c09Op, hostile []c09Op) {
 		{K: "ly", A: []int{0}}, {K: "ly", A: []int{-1}}, {K: "ly", A: []int{10000}}, {K: "ly", A: []int{1 << 31}}, {K: "ly", A: []int{-(1 << 31)}},
 		{K: "ly", A: []int{1 << 62}}, {K: "ly", A: []int{-(1 << 62)}}, {K: "l2s", A: []int{1 << 31, 1, 1, 0, 0, 0}}, {K: "ltime", A: []int{2020, 1, 1, 25, 0, 0}},
 		{K: "tao", A: []int{1 << 40, 1, 1, 0, 0, 0}}, {K: "jd", A: []int{1 << 40, 0}}, {K: "lm", A: []int{1 << 33, 1, 1}},
+		{K: "holbad", S: []string{""}}, {K: "holbad", S: []string{"-"}}, {K: "holbad", S: []string{"2020"}}, {K: "holbad", S: []string{"20201"}},
+		{K: "fixrt", A: []int{2031, 3, 9}}, {K: "fixrt", A: []int{2003, 7, 19}},
 	}
 	return
 }
@@ -663,6 +726,9 @@ func c09ChildMain(args []string) int {
 				last := -1
 				<-start
 				for _, i := range order {
+					if ops[i].K == "fixrt" {
+						continue // edits package state for a moment: single-goroutine histories only
+					}
 					evs[g] = append(evs[g], c09Event{i, c09Exec(ops[i])})
 					if y, ok := calendar.VerifCacheYear(); ok {
 						if last != -1 && last != y {
@@ -730,6 +796,51 @@ func c09ChildMain(args []string) int {
 			res.SharedCalls += len(ms)
 			if digs[g] != again {
 				res.Shared = append(res.Shared, fmt.Sprintf("first concurrent use: a private Lunar of %04d-%02d-%02d %02d:%02d:%02d walked by goroutine %d differs from a later sequential walk: %s", y, m, d, hh, mi, ss, g, diffDigests(digs[g], again)))
+			}
+		}
+	case "cold":
+		// cold process: accessor number idx of the universe (all zero-argument accessors of twelve object types built
+		// for one fixed moment) is the first accessor called in this process (after the constructors), the others follow.
+		// The parent compares what an accessor says when it comes first with what it says in the other children, where
+		// it comes late: package-level tables built on first use must not change an answer.
+		mk := func() []reflect.Value {
+			l := calendar.NewSolar(2024, 3, 15, 9, 10, 11).GetLunar()
+			os := []interface{}{l, l.GetSolar(), l.GetEightChar(), l.GetFoto(), l.GetTao(), l.GetTime(),
+				calendar.NewLunarMonthFromYm(l.GetYear(), l.GetMonth()), calendar.NewLunarYear(l.GetYear()), calendar.NewSolarWeekFromYmd(2024, 3, 15, 1),
+				calendar.NewSolarMonthFromYm(2024, 3), calendar.NewSolarYearFromYear(2024), calendar.NewNineStar(4)}
+			vs := make([]reflect.Value, len(os))
+			for i, o := range os {
+				vs[i] = reflect.ValueOf(o)
+			}
+			return vs
+		}
+		vs := mk()
+		type slot struct {
+			oi int
+			m  reflect.Method
+		}
+		var universe []slot
+		for oi, v := range vs {
+			for _, mt := range zeroArgMethods(v.Type()) {
+				universe = append(universe, slot{oi, mt})
+			}
+		}
+		res.Transitions["universe"] = len(universe)
+		call := func(k int) string {
+			s := universe[k]
+			out, pv := callMethod(vs[s.oi], s.m)
+			if pv != nil {
+				return "panic:" + fmt.Sprint(pv)
+			}
+			return sha(render(out, 0, nil))
+		}
+		// the extra indexes past the universe ask exported helpers first
+		if idx < len(universe) {
+			res.Events = append(res.Events, c09Event{idx, call(idx)})
+		}
+		for k := range universe {
+			if k != idx {
+				res.Events = append(res.Events, c09Event{k, call(k)})
 			}
 		}
 	case "firstslot":
@@ -1178,6 +1289,56 @@ func c09Custom(pc *Parent) {
 		pc.R.Counters["first-call-processes"]++
 	}
 
+	// B3. cold processes: every accessor of the universe once as the first accessor of a fresh process
+	{
+		probe := pc.c09Spawn(pc.selfExe, "cold", opsFile, 1<<30, timeout, nil)
+		nU := 0
+		if !probe.failed {
+			nU = probe.out.Transitions["universe"]
+		} else {
+			handleFail(probe)
+		}
+		stride := 1
+		if quick {
+			stride = 3 // a third of the accessors per run, rotating with the seed
+		}
+		var idxs []int
+		for k := int(pc.Seed % int64(stride)); k < nU; k += stride {
+			idxs = append(idxs, k)
+		}
+		cold := make([]c09Run, len(idxs))
+		for j, k := range idxs {
+			wg.Add(1)
+			go func(j, k int) {
+				defer wg.Done()
+				sem <- struct{}{}
+				cold[j] = pc.c09Spawn(pc.selfExe, "cold", opsFile, k, timeout, nil)
+				<-sem
+			}(j, k)
+		}
+		wg.Wait()
+		warm := map[int]string{}
+		for _, e := range probe.out.Events {
+			warm[e.I] = e.D
+		}
+		for _, r := range cold {
+			if r.failed {
+				handleFail(r)
+				continue
+			}
+			for n, e := range r.out.Events {
+				if w, ok := warm[e.I]; ok && w != e.D {
+					when := "late"
+					if n == 0 {
+						when = "first"
+					}
+					pc.Violate("cold-first-call", fmt.Sprintf("slot%d", e.I), fmt.Sprintf("accessor number %d of the cold-process universe (2024-03-15 09:10:11 objects) answers %s when it is called %s in a fresh process whose first accessor was number %d, and %s in a process that started with another accessor", e.I, e.D, when, r.idx, w), nil, nil)
+				}
+				pc.R.Evals++
+			}
+			pc.R.Counters["cold-processes"]++
+		}
+	}
 	// (matrix aid: with LUNARMON_FAILFAST=1 a run that has already found history dependence skips the schedule phase)
 	if os.Getenv("LUNARMON_FAILFAST") == "1" && len(pc.R.Violations) > 0 {
 		return
